@@ -164,7 +164,9 @@ def segLookup (sg : Seg) (cn : String) : Option (List Fld) :=
 
 /-- Segment against the rows of its reference -/
 def validSegKnown (sg : Seg) (rows : List (String × Nat × Int × Ref)) : R (List VErr) := do
-  let names := dedup ((sg.kids.filter (fun k => !isZFieldEl k)).map (fun k => oName k.name))
+  let names0 := dedup ((sg.kids.filter (fun k => !isZFieldEl k)).map (fun k => oName k.name))
+  -- a varies-terminated segment accepts further fields `<SEG>_<n>` (fix of finding D18)
+  let names := if sg.inf then names0.filter (fun n => !validChildName (some n) sg.name) else names0
   let valid := rows.map (·.1)
   let extra := names.filter (fun n => !valid.contains n)
   let e0 : List VErr := if extra.isEmpty then [] else [.invalidChildren sg.name (sortS extra)]
